@@ -3,6 +3,7 @@ package main
 import (
 	"fmt"
 	"math/rand"
+	"os"
 	"sort"
 	"strings"
 
@@ -97,6 +98,10 @@ func checkC10() int {
 		if len(c.Samples) < 4 && len(e.defs) >= 3 && (len(c.Samples)%2 == 0) == e.an.WF {
 			c.Sample(map[string]interface{}{"definitions": e.text, "injected": e.defect, "reference": fmt.Sprintf("wf=%v %s", e.an.WF, e.an.Reason), "grits": clip(o.Res.TcErr, 120)})
 		}
+	}
+	if b, err := os.ReadFile("/verif/known/F15.grits"); err == nil {
+		o := pool.Run([]sup.Job{{Kind: "typecheck", Text: string(b)}}, nil)[0]
+		c.PinnedWitness("F15", o.Res != nil && o.Res.TcOK, "accepts ill-formed definitions: head-annotation-contradicts-shift", map[string]interface{}{"definitions": string(b)})
 	}
 	c.Extra["environments_by_injected_defect"] = byDefect
 	c.Extra["reference_illformed_reasons"] = byReason
